@@ -167,7 +167,7 @@ theorem dirsT (τ : Trivia) (hτ : ∀ q, Ws (τ q)) (ds : List Directive) (hne 
     have hfail : Fails gList (10 + 100) true (.call R.Directive) .nonAtomic
         (At inp (p + (renderItems (rDir τ) false sep p (d :: r)).length)) :=
       (fails_call (directive_fails (headNot_mono (fun c hc => hc ▸ hb2) hn.ok))).mono (by omega)
-    obtain ⟨pss, hmany, hgood⟩ := items_many1K (rDir τ) false sep (.call R.Directive) (· = '(') 10 (DirGood τ inp) r d p
+    obtain ⟨pss, hmany, hgood⟩ := items_many1K (rDir τ) false sep (.call R.Directive) (fun _ => (· = '(')) 10 (DirGood τ inp) r d p
       (fun x hx s q hat hnx => by
         obtain ⟨e, hr⟩ := dirT τ hτ x (wfDirs_mem hwf hx) (bad := (· = '(')) rfl hat hnx
         exact ⟨_, hr, hat.left, e, rfl⟩)
